@@ -182,11 +182,15 @@ func genC34Case(c *mon.Ctx, i int, pool []*cdnFile, adversarial bool) c34Case {
 		}
 	case "truncate-boundary":
 		// needs hash-window boundaries strictly inside one answer: small windows, larger parts
-		cs.WinStyle = []string{"uniform-4k8k", "uniform-4k8k", "chunk-aligned"}[r.IntN(3)]
-		for tries := 0; cs.Part < 16384 && tries < 20; tries++ {
+		cs.WinStyle = "uniform-4k8k"
+		for tries := 0; (cs.Part < 16384 || cs.Part > size) && tries < 40; tries++ {
 			cs.Part = c34Parts[r.IntN(len(c34Parts))]
 		}
-		cs.Chunk %= size/cs.Part + 1
+		full := size / cs.Part // aim at a part that is completely inside the file
+		if full < 1 {
+			full = 1
+		}
+		cs.Chunk %= full
 		cs.X = int64(cs.Chunk) * int64(cs.Part)
 	}
 	return cs
@@ -198,7 +202,7 @@ type c34Stats struct {
 	cdnReqs, planChecked, tilingChecked, corruptDelivered int64
 	events                                                map[string]int64
 	byMode                                                map[string]int64
-	rejectedBy                                            map[string]int64
+	rejectedBy, acceptedBy                                map[string]int64
 	errClasses                                            map[string]int64
 }
 
@@ -220,8 +224,8 @@ func runC34(c *mon.Ctx) {
 	for i, s := range c34PoolSizes(quick) {
 		pool = append(pool, newCDNFile(c.Seed*7919+uint64(i)*104729+1, s))
 	}
-	nHonest, nAdv := devN(c.N(160, 6000)), devN(c.N(480, 24000))
-	st := &c34Stats{events: map[string]int64{}, byMode: map[string]int64{}, rejectedBy: map[string]int64{}, errClasses: map[string]int64{}}
+	nHonest, nAdv := devN(c.N(160, 4000)), devN(c.N(480, 16000))
+	st := &c34Stats{events: map[string]int64{}, byMode: map[string]int64{}, rejectedBy: map[string]int64{}, acceptedBy: map[string]int64{}, errClasses: map[string]int64{}}
 	type job struct {
 		i   int
 		adv bool
@@ -268,6 +272,7 @@ func runC34(c *mon.Ctx) {
 	c.Set("server_events_fired", st.events)
 	c.Set("downloads_by_mode", st.byMode)
 	c.Set("rejected_by_strategy", st.rejectedBy)
+	c.Set("wrong_content_accepted_by_mode_strategy", st.acceptedBy)
 	c.Set("error_classes", st.errClasses)
 	if st.honestOK == 0 {
 		c.Inconclusive("no honest download succeeded: the harness servers are not a usable model")
@@ -405,16 +410,17 @@ func runC34Case(c *mon.Ctx, cs *c34Case, cf *cdnFile, st *c34Stats, sc *scratch)
 	var (
 		got []byte
 		err error
+		typ tg.StorageFileTypeClass
 	)
 	name := fmt.Sprintf("c34#%d", cs.Index)
 	if cs.Way == "stream" {
 		sink := newSeqSinkAssembling(name, sc.outBuf())
-		_, err = b.Stream(ctx, sink)
+		typ, err = b.Stream(ctx, sink)
 		sink.close()
 		got = sink.content()
 	} else {
 		sink := newAtSinkAssembling(name, sc.outBuf())
-		_, err = b.Parallel(ctx, sink)
+		typ, err = b.Parallel(ctx, sink)
 		sink.close()
 		got = sink.content()
 	}
@@ -425,6 +431,11 @@ func runC34Case(c *mon.Ctx, cs *c34Case, cf *cdnFile, st *c34Stats, sc *scratch)
 	if ctx.Err() != nil {
 		c.Inconclusive(fmt.Sprintf("watchdog: download %d did not finish in 5 min", cs.Index))
 		return
+	}
+	if err == nil && cs.Mode == "verify-master" {
+		// observation only (the type of verified downloads is outside C34; C33 is
+		// anchored in the plain reader): what type does a verified download report?
+		c.Add("verify_master_ok_type_"+typeName(typ), 1)
 	}
 	w.mu.Lock()
 	defer w.mu.Unlock()
@@ -524,6 +535,9 @@ func runC34Case(c *mon.Ctx, cs *c34Case, cf *cdnFile, st *c34Stats, sc *scratch)
 				break
 			}
 		}
+		st.Lock()
+		st.acceptedBy[cs.Mode+"/"+cs.Strategy]++
+		st.Unlock()
 		c.Violate(sig, wit(extra))
 	case err == nil && w.corrupt == 0:
 		if cs.Strategy == "honest" {
